@@ -73,9 +73,8 @@ func runC10(c *Ctx, w *World, r *Report) {
 				bad = "mask is not Mask[length] << (height-length)"
 				continue
 			}
-			tab, idx, ok := asElemLoad(m)
-			if !ok || !isGlobal(tab, "bitmap", "Mask") || stripConv(idx) != ssa.Value(fn.Params[1]) {
-				bad = "mask bits are not bitmap.Mask[length]"
+			if ms, ok := fa.MaskOf(m); !ok || ms.Kind != "low" || !ms.N.Eq(fa.Lin(fn.Params[1])) {
+				bad = "mask bits are not the low `length` bits (bitmap.Mask[length])"
 			}
 			if !fa.Lin(sh).Eq(fa.Lin(fn.Params[2]).Sub(fa.Lin(fn.Params[1]))) {
 				bad = "mask is shifted by " + fa.Lin(sh).String() + ", left alignment needs height-length"
